@@ -767,12 +767,11 @@ def enc_in(v):
     if isinstance(v, int):
         return v
     if isinstance(v, str):
-        v = PEM_TOKENS.get(v, v)
-        return v if _safe_text(v) else v.encode()
+        return PEM_TOKENS.get(v, v)
     if isinstance(v, list):
         return [4] + [enc_in(x) for x in v]
     if isinstance(v, dict):
-        return [5] + [[enc_in(k), enc_in(x)] for k, x in v.items()]
+        return [5] + [y for k, x in v.items() for y in (enc_in(k), enc_in(x))]
     raise TypeError(type(v))
 
 
@@ -787,8 +786,12 @@ def enc_out(v):
     if isinstance(v, list):
         return [4] + [enc_out(x) for x in v]
     if isinstance(v, dict):
-        return [5] + [[enc_out(k), enc_out(x)] for k, x in v.items()]
+        return [5] + [y for k, x in v.items() for y in (enc_out(k), enc_out(x))]
     raise TypeError(type(v))
+
+
+EXC_CODES = {'ConfigurationError': 0, 'KeyError': 1, 'AttributeError': 2, 'TypeError': 3, 'ValueError': 4,
+             'gaierror': 5, 'InvalidSyntax': 6}
 
 
 def exc_class(e):
@@ -800,6 +803,48 @@ def exc_class(e):
         if isinstance(e, cls):
             return name
     return 'Other:' + type(e).__name__
+
+
+def res_code(res):
+    """['ok', tree] / ['raise', class] -> the numeric form exchanged with the model"""
+    return [0, res[1]] if res[0] == 'ok' else [1, EXC_CODES.get(res[1], 99)]
+
+
+class Interner:
+    """String literals are the most expensive thing for coqc to read: every distinct text is sent once per batch
+    (Definition strtab) and referred to as [10 + index]."""
+
+    def __init__(self):
+        self.idx = {}
+        self.items = []
+
+    def ref(self, b):
+        if isinstance(b, str):
+            b = b.encode()
+        b = bytes(b)
+        i = self.idx.get(b)
+        if i is None:
+            i = self.idx[b] = len(self.items)
+            self.items.append(b)
+        return [10 + i]
+
+    def walk(self, o):
+        if isinstance(o, (str, bytes, bytearray)):
+            return self.ref(o)
+        if isinstance(o, (list, tuple)):
+            return [self.walk(x) for x in o]
+        return o
+
+    def requires(self):
+        ents = []
+        for b in self.items:
+            if all(32 <= c < 127 and c != 34 for c in b):
+                ents.append('"%s"' % b.decode('ascii'))
+            else:
+                ents.append('hx "%s"' % b.hex())
+        return ('From Config Require Import ConfigRun. Require Import Coq.Strings.String Coq.Lists.List. '
+                'Open Scope string_scope.\nDefinition strtab : list string := Eval vm_compute in ('
+                + '\n :: '.join(ents + ['nil']) + ').')
 
 
 _real_getaddrinfo = socket.getaddrinfo
@@ -920,7 +965,7 @@ def outcome(fn, dec):
     try:
         return [0] + dec(fn())
     except Exception as e:
-        return [1, exc_class(e)]
+        return [1, EXC_CODES.get(exc_class(e), 99)]
 
 
 _DEFAULT_ID = None
@@ -956,12 +1001,12 @@ def resolve_env(d):
         return out
 
     def text(s):
-        return [s if _safe_text(s) else s.encode()]
+        return [s]
 
     def endpoint(v):
         out = add(0, v, lambda: numeric_getaddrinfo(v, None)[0][4][0], text)
         if out and out[0] == 0:
-            s = out[1] if isinstance(out[1], str) else out[1].decode()
+            s = out[1]
             add(1, s, lambda: ip_address(s), c_addr)
 
     def nonascii(v):
@@ -1022,45 +1067,56 @@ def describe(listen, d, desc):
     return {'listen': listen, 'dict': r[:1500], 'kind': desc}
 
 
+BATCH = 4000
+
+
 def correspond(ctx):
+    from ipaddress import ip_address
     gen = Gen(ctx.rng)
     fails = []
-    load_cases, ike_cases, meta = [], [], []
     n = n_cases(ctx)
-    for i in range(n):
-        listen, d, desc = gen.case()
-        res, draws = run_real(ctx.rng, listen, d)
-        envl = resolve_env(d)
-        addrs = [c_addr(__import__('ipaddress').ip_address(a)) for a in listen]
-        load_cases.append(([addrs, envl, draws, enc_in(d)], res))
-        meta.append((listen, d, desc))
-        ok = res[0] == 'ok'
-        ctx.case(describe(listen, d, desc), nontrivial=True, sample=(i < 4))
-        ctx.count('load:' + (('ok:%d-connections' % len(res[1])) if ok else res[1]))
-        ctx.count('grammar:' + desc.split(':')[0])
-        # the same connections through _load_ike_conf alone: the raw exception class
-        if isinstance(d, dict) and i % 2 == 0:
-            for name, cd in list(d.items())[:1]:
-                r2, dr2 = run_real(ctx.rng, listen, d, only_ike=(name, cd))
-                ike_cases.append(([addrs, envl, dr2, enc_in(name), enc_in(cd)], r2))
-                ctx.count('ike_conf:' + ('ok' if r2[0] == 'ok' else r2[1]))
-    req = 'From Config Require Import ConfigRun.'
-    shard = 80
-    bad = core.run_cases(ctx, CLUSTER, req, 'run_load', load_cases, shard=shard, name='load')
-    for gi, out in bad[:6]:
-        listen, d, desc = meta[gi]
-        fails.append(Failure('correspondence', 'config:load', f'Configuration({listen}, {describe(listen, d, desc)["dict"][:600]}) '
-                             f'= {str(load_cases[gi][1])[:300]} but the model says {out[-300:]}',
-                             {'kind': 'config', 'listen': listen, 'dict': repr(d)}))
-    bad = core.run_cases(ctx, CLUSTER, req, 'run_ike_conf', ike_cases, shard=shard, name='ike')
-    for gi, out in bad[:6]:
-        fails.append(Failure('correspondence', 'config:load_ike_conf',
-                             f'_load_ike_conf -> {str(ike_cases[gi][1])[:300]} but the model says {out[-300:]}',
-                             {'kind': 'model-only', 'case': repr(ike_cases[gi][0])[:3000]}))
+    done = 0
+    batch_no = 0
+    while done < n and len(fails) < 6:
+        tab = Interner()
+        load_cases, ike_cases, meta = [], [], []
+        for i in range(done, min(n, done + BATCH)):
+            listen, d, desc = gen.case()
+            res, draws = run_real(ctx.rng, listen, d)
+            envl = resolve_env(d)
+            addrs = [c_addr(ip_address(a)) for a in listen]
+            load_cases.append((tab.walk([addrs, envl, draws, enc_in(d)]), tab.walk(res_code(res))))
+            meta.append((listen, d, desc, res))
+            ok = res[0] == 'ok'
+            ctx.case(describe(listen, d, desc), nontrivial=True, sample=(i < 4))
+            ctx.count('load:' + (('ok:%d-connections' % len(res[1])) if ok else res[1]))
+            ctx.count('grammar:' + desc.split(':')[0])
+            # the first connection through _load_ike_conf alone: the exception class before __init__ maps it
+            if isinstance(d, dict) and i % 4 == 0:
+                for name, cd in list(d.items())[:1]:
+                    r2, dr2 = run_real(ctx.rng, listen, d, only_ike=(name, cd))
+                    ike_cases.append((tab.walk([addrs, envl, dr2, enc_in(name), enc_in(cd)]), tab.walk(res_code(r2))))
+                    ctx.case({'ike_conf': describe(listen, cd, desc)}, nontrivial=True)
+                    ctx.count('ike_conf:' + ('ok' if r2[0] == 'ok' else r2[1]))
+        done += BATCH
+        req = tab.requires()
+        bad = core.run_cases(ctx, CLUSTER, req, 'run_load strtab', load_cases, shard=150, name=f'load{batch_no}')
+        for gi, out in bad[:6]:
+            listen, d, desc, res = meta[gi]
+            fails.append(Failure('correspondence', 'config:load',
+                                 f'Configuration({listen}, {describe(listen, d, desc)["dict"][:600]}) = {str(res)[:300]} '
+                                 f'but the model says {out[-300:]}', {'kind': 'config', 'listen': listen, 'dict': repr(d)}))
+        bad = core.run_cases(ctx, CLUSTER, req, 'run_ike_conf strtab', ike_cases, shard=150, name=f'ike{batch_no}')
+        for gi, out in bad[:6]:
+            fails.append(Failure('correspondence', 'config:load_ike_conf',
+                                 f'_load_ike_conf -> {str(ike_cases[gi][1])[:300]} but the model says {out[-300:]}',
+                                 {'kind': 'model-only', 'case': repr(ike_cases[gi][0])[:3000]}))
+        batch_no += 1
     # int(text): the ASCII grammar the model implements itself
+    tab = Interner()
     ints = []
     pool = ['12', ' 12 ', '+5', '-5', '- 5', '1_0', '_1', '1_', '1__0', '', '+', '-', '0x10', '\x1c12', '12\x00', '--1', '+-1',
-            '1 2', '\t\n\x0b\x0c\r 7', '0' * 4299 + '1', '9' * 4300, '9' * 4301, '1_' * 4300 + '1', '1_' * 2149 + '1',
+            '1 2', '\t\n\x0b\x0c\r 7', '0' * 4299 + '1', '0' * 4300 + '1', '9' * 4301, '0_' * 4300 + '1', '0_' * 2149 + '1', '9' * 300,
             '007', '-0', ' +1_2_3 ', '1e3', '1.0', 'a', '1a', '\x0c5\x0b', ' _1', '1 _', True, False, None, [], {}, 7, -7,
             '12 \x00', '\x00']
     chars = ' \t\n+-_0123456789a\x0b\x1f'
@@ -1071,10 +1127,10 @@ def correspond(ctx):
             r = ['ok', int(v)]
         except Exception as e:
             r = ['raise', exc_class(e)]
-        ints.append((enc_in(v), r))
+        ints.append((tab.walk(enc_in(v)), res_code(r)))
         ctx.case({'int': repr(v)[:40]}, nontrivial=True)
         ctx.count('int:' + ('ok' if r[0] == 'ok' else r[1]))
-    bad = core.run_cases(ctx, CLUSTER, req, 'run_int', ints, shard=400, name='int')
+    bad = core.run_cases(ctx, CLUSTER, tab.requires(), 'run_int strtab', ints, shard=2500, name='int')
     for gi, out in bad[:4]:
         fails.append(Failure('correspondence', 'config:int', f'int({pool[gi]!r:.60}) = {ints[gi][1]} but the model '
                              f'says {out[-200:]}', {'kind': 'model-only', 'int': repr(pool[gi])[:200]}))
@@ -1247,7 +1303,7 @@ CHECK = core.Check(
          'valid by construction (random omissions, every algorithm name, IPv4/IPv6, identities of the four types, PEM '
          'keys), then 0-3 positions replaced by an ill-typed / out-of-range value (None, bool, int, str, list, dict), '
          'deleted or wrapped; 1% non-dictionary top levels; each through the real Configuration() and, for the first '
-         'connection of every second dictionary, through _load_ike_conf alone (raw exception class); plus int() texts. '
+         'connection of every fourth dictionary, through _load_ike_conf alone (raw exception class); plus int() texts. '
          'Every case is non-trivial (it exercises the loader); distinct by content hash',
     trusted_base=['Coq 8.16.1 kernel (coqc, vm_compute; no native_compute)',
                   'py/props/c19.py translator (tables, defaults, transform order, AH rule, except clauses -> '
